@@ -42,14 +42,18 @@ import (
 
 	"github.com/ozontech/seq-db/cache"
 	"github.com/ozontech/seq-db/conf"
+	"github.com/ozontech/seq-db/consts"
 	"github.com/ozontech/seq-db/disk"
 	"github.com/ozontech/seq-db/frac"
 	"github.com/ozontech/seq-db/frac/processor"
 	"github.com/ozontech/seq-db/fracmanager"
 	"github.com/ozontech/seq-db/logger"
+	"github.com/ozontech/seq-db/mappingprovider"
 	"github.com/ozontech/seq-db/metric/stopwatch"
 	"github.com/ozontech/seq-db/parser"
 	pstore "github.com/ozontech/seq-db/pkg/storeapi"
+	"github.com/ozontech/seq-db/proxy/bulk"
+	"github.com/ozontech/seq-db/proxy/stores"
 	"github.com/ozontech/seq-db/seq"
 	"github.com/ozontech/seq-db/storeapi"
 	"github.com/ozontech/seq-db/verifhook"
@@ -722,8 +726,34 @@ type docSpec struct {
 // bulk b < 1000: 1..3 new documents.  bulk b >= 1000 overlaps bulk b-1000: it repeats that bulk's documents (same
 // IDs, bytes and tokens - a sender re-sending what was not confirmed yet) FIRST and then brings 1..2 documents of
 // its own, so that duplicates precede new documents inside one bulk.
+//
+// 2000 <= b < 3000: a bulk the real ingestor builds from JSON documents (single mode); its IDs are the ingestor's.
+// b >= 3000: a "hot" bulk of 500 documents that all carry the token service:hot (twenty of them pass the 10000-LID
+// background-merge threshold of a token's queue; histories use 40).
 func bulkDocs(b int) []docSpec {
-	if b >= 1000 {
+	switch {
+	case b >= 3000:
+		res := make([]docSpec, 500)
+		for j := range res {
+			res[j] = docSpec{
+				id:     seq.ID{MID: seq.MID(2_000_000 + (b-3000)*1000 + j), RID: seq.RID(b)},
+				body:   []byte(fmt.Sprintf(`{"service":"hot","k8s_pod":"h%d_%d"}`, b, j)),
+				tokens: []string{"service:hot", fmt.Sprintf("k8s_pod:h%d_%d", b, j), "_all_:"},
+				svc:    b,
+			}
+		}
+		return res
+	case b >= 2000:
+		res := make([]docSpec, 2)
+		for j := range res {
+			res[j] = docSpec{
+				body:   []byte(fmt.Sprintf(`{"service":"g%d","k8s_pod":"g%d_%d","pad":"%s"}`, b, b, j, strings.Repeat("p", 20+j))),
+				tokens: []string{fmt.Sprintf("service:g%d", b), fmt.Sprintf("k8s_pod:g%d_%d", b, j)},
+				svc:    b,
+			}
+		}
+		return res
+	case b >= 1000:
 		return append(bulkDocs(b-1000), newDocs(b)...)
 	}
 	return newDocs(b)
@@ -823,6 +853,52 @@ func childCancelled(fm *fracmanager.FracManager, b, mode int, say func(string, .
 	say("XRES %d %s", b, map[bool]string{true: "ok", false: "err"}[err == nil])
 }
 
+// childGlue is the single mode: the real bulk.Ingestor (pooled DocsMetasCompressor, SeqDBClient) talks to the store
+// through the in-memory client.  The store's index workers are parked at c07.aidx.start (a task taken from the queue,
+// nothing of it read yet) while bulk a and then bulk b are accepted - the ingestor builds b in the buffers it sent a
+// from - and are released afterwards.  Returns the bulks that were acknowledged.
+func childGlue(fm *fracmanager.FracManager, g *storeapi.GrpcV1, a, b int, say func(string, ...any)) []int {
+	mp, err := mappingprovider.New("", mappingprovider.WithMapping(seq.TestMapping))
+	must(err)
+	clients := map[string]pstore.StoreApiClient{"memory": storeapi.VerifC01InMemoryClient(g, fm)}
+	hot := stores.NewStoresFromString("memory", 1)
+	none := stores.NewStoresFromString("", 1)
+	cfg := bulk.IngestorConfig{HotStores: hot, WriteStores: none, MaxInflightBulks: 4, AllowedTimeDrift: 24 * time.Hour,
+		FutureAllowedTimeDrift: 5 * time.Minute, MappingProvider: mp, MaxTokenSize: consts.DefaultMaxTokenSize,
+		DocsZSTDCompressLevel: -1, MetasZSTDCompressLevel: -1, MaxDocumentSize: consts.MB}
+	ing := bulk.NewIngestor(cfg, bulk.NewSeqDBClient(hot, none, cfg.BulkCircuit, clients))
+	gate := make(chan struct{})
+	verifhook.Set(func(name, _ string, _ []int64) {
+		if name == "c07.aidx.start" {
+			<-gate
+		}
+	})
+	var acked []int
+	for _, x := range []int{a, b} {
+		docs := bulkDocs(x)
+		i := 0
+		n, err := ing.ProcessDocuments(context.Background(), time.Now(), func() ([]byte, error) {
+			if i == len(docs) {
+				return nil, nil
+			}
+			i++
+			return docs[i-1].body, nil
+		})
+		if err == nil && n == len(docs) {
+			acked = append(acked, x)
+		} else {
+			say("GLUEERR %d %v", x, err)
+		}
+	}
+	close(gate)
+	fm.WaitIdle()
+	verifhook.Set(nil)
+	for _, x := range acked {
+		say("ACK %d", x)
+	}
+	return acked
+}
+
 // child <dir> <verify ids> <ingest ids> <crash bulk>:<point>   (crash "-" = none)
 func childMain(args []string) {
 	logger.SetLevel(zapcore.FatalLevel)
@@ -849,78 +925,151 @@ func childMain(args []string) {
 	searcher := fracmanager.NewSearcher(1, fracmanager.SearcherCfg{})
 	fetcher := fracmanager.NewFetcher(1)
 	ctx := context.Background()
-	for _, b := range verify {
-		docs := bulkDocs(b)
-		// search by the bulk token and by every document token
-		found := map[seq.ID]bool{}
-		searchErr := ""
-		q := func(query string) []seq.ID {
-			ast, err := parser.ParseSeqQL(query, seq.TestMapping)
-			must(err)
-			qpr, err := searcher.SearchDocs(ctx, fm.GetAllFracs(), processor.SearchParams{AST: ast.Root, From: 0, To: math.MaxUint64, Limit: 1000})
-			if err != nil {
-				searchErr = "search-error"
-				return nil
-			}
-			return qpr.IDs.IDs()
+	q := func(query string) ([]seq.ID, bool) {
+		ast, err := parser.ParseSeqQL(query, seq.TestMapping)
+		must(err)
+		qpr, err := searcher.SearchDocs(ctx, fm.GetAllFracs(), processor.SearchParams{AST: ast.Root, From: 0, To: math.MaxUint64, Limit: 200000})
+		if err != nil {
+			return nil, false
 		}
+		return qpr.IDs.IDs(), true
+	}
+	fetch1 := func(id seq.ID, body []byte) string {
+		res, err := fetcher.FetchDocs(ctx, fm.GetAllFracs(), []seq.IDSource{{ID: id}})
+		switch {
+		case err != nil:
+			return "error"
+		case len(res) != 1 || res[0] == nil:
+			return "missing"
+		case bytes.Equal(res[0], body):
+			return "exact"
+		}
+		return "wrong"
+	}
+	// observe prints what the store serves of bulk b: how many of its n documents are found by the bulk token and by
+	// their own token, how many foreign IDs those tokens lead to, how many documents are fetched byte for byte
+	observe := func(b int) {
+		docs := bulkDocs(b)
+		searchErr, fetchErr := "", ""
 		cache := map[string]map[seq.ID]bool{}
 		ids := func(tok string) map[seq.ID]bool {
 			if r, ok := cache[tok]; ok {
 				return r
 			}
 			r := map[seq.ID]bool{}
-			for _, id := range q(tok) {
+			hits, ok := q(tok)
+			if !ok {
+				searchErr = "search-error"
+			}
+			for _, id := range hits {
 				r[id] = true
 			}
 			cache[tok] = r
 			return r
 		}
-		// every document must be found by its bulk token and by its own token; the bulk token may only lead to the
-		// documents that carry it, a document token only to its document
-		extra, tokenHits := 0, 0
-		for _, d := range docs {
-			if ids(d.tokens[0])[d.id] {
-				found[d.id] = true
-			}
-			if ids(d.tokens[1])[d.id] {
-				tokenHits++
-			}
-			extra += len(ids(d.tokens[1]))
-			if ids(d.tokens[1])[d.id] {
-				extra--
-			}
-		}
-		for tok, svc := range map[string]int{docs[0].tokens[0]: docs[0].svc, docs[len(docs)-1].tokens[0]: docs[len(docs)-1].svc} {
-			want := map[seq.ID]bool{}
-			for _, d := range newDocs(svc) {
-				want[d.id] = true
-			}
-			for id := range ids(tok) {
-				if !want[id] {
-					extra++
-				}
-			}
-		}
-		// fetch every document by ID
-		exact, missing, wrong, fetchErr := 0, 0, 0, ""
-		for _, d := range docs {
-			res, err := fetcher.FetchDocs(ctx, fm.GetAllFracs(), []seq.IDSource{{ID: d.id}})
-			switch {
-			case err != nil:
+		n, found, extra, tokenHits, exact, missing, wrong := len(docs), 0, 0, 0, 0, 0, 0
+		count := func(r string) {
+			switch r {
+			case "exact":
+				exact++
+			case "missing":
+				missing++
+			case "error":
 				fetchErr = "fetch-error"
 				wrong++
-			case len(res) != 1 || res[0] == nil:
-				missing++
-			case bytes.Equal(res[0], d.body):
-				exact++
 			default:
 				wrong++
 			}
 		}
-		say("OBS %d n=%d search=%d extra=%d bytoken=%d exact=%d missing=%d wrong=%d %s %s", b, len(docs), len(found), extra, tokenHits, exact, missing, wrong, searchErr, fetchErr)
+		switch {
+		case b >= 3000: // hot bulk: all IDs under the shared token, a sample of documents by own token and by fetch
+			hot := ids(docs[0].tokens[0])
+			okSample := true
+			for j, d := range docs {
+				if hot[d.id] {
+					found++
+				}
+				if j%200 == 0 {
+					own := ids(d.tokens[1])
+					if !own[d.id] || len(own) != 1 || fetch1(d.id, d.body) != "exact" {
+						okSample = false
+					}
+				}
+			}
+			if okSample {
+				tokenHits, exact = n, n
+			} else {
+				wrong = 1
+			}
+		case b >= 2000: // bulk built by the real ingestor: the IDs are its own, a document is identified by its token
+			bulkSet := ids(docs[0].tokens[0])
+			for _, d := range docs {
+				own := ids(d.tokens[1])
+				if len(own) > 1 {
+					extra += len(own) - 1
+				}
+				if len(own) == 0 {
+					missing++
+					continue
+				}
+				tokenHits++
+				for id := range own {
+					if bulkSet[id] {
+						found++
+					}
+					count(fetch1(id, d.body))
+					break
+				}
+			}
+			if len(bulkSet) > n {
+				extra += len(bulkSet) - n
+			}
+		default:
+			for _, d := range docs {
+				if ids(d.tokens[0])[d.id] {
+					found++
+				}
+				own := ids(d.tokens[1])
+				if own[d.id] {
+					tokenHits++
+					extra += len(own) - 1
+				} else {
+					extra += len(own)
+				}
+				count(fetch1(d.id, d.body))
+			}
+			for tok, svc := range map[string]int{docs[0].tokens[0]: docs[0].svc, docs[len(docs)-1].tokens[0]: docs[len(docs)-1].svc} {
+				want := map[seq.ID]bool{}
+				for _, d := range newDocs(svc) {
+					want[d.id] = true
+				}
+				for id := range ids(tok) {
+					if !want[id] {
+						extra++
+					}
+				}
+			}
+		}
+		say("OBS %d n=%d search=%d extra=%d bytoken=%d exact=%d missing=%d wrong=%d %s %s", b, n, found, extra, tokenHits, exact, missing, wrong, searchErr, fetchErr)
 	}
+	for _, b := range verify {
+		observe(b)
+	}
+	var stopSearch atomic.Bool
+	searching := false
+	var searchWG sync.WaitGroup
 	for _, b := range ingest {
+		if b >= 3000 && !searching {
+			searching = true
+			// a reader hammers the hot token while the hot bulks are ingested (merges overlap with queueing)
+			searchWG.Add(1)
+			go func() {
+				defer searchWG.Done()
+				for !stopSearch.Load() {
+					q("service:hot")
+				}
+			}()
+		}
 		docs, metas := bulkBlocks(b)
 		if err := storeBulk(ctx, b, docs, metas); err != nil {
 			say("APPENDERR %d %v", b, err)
@@ -928,6 +1077,18 @@ func childMain(args []string) {
 		}
 		fm.WaitIdle()
 		say("ACK %d", b)
+	}
+	stopSearch.Store(true)
+	searchWG.Wait()
+	var glued []int
+	if len(args) > 7 && args[7] != "-" {
+		var a, b int
+		_, err := fmt.Sscanf(args[7], "%d+%d", &a, &b)
+		must(err)
+		glued = childGlue(fm, grpcH, a, b, say)
+		for _, x := range glued { // before any seal or restart
+			observe(x)
+		}
 	}
 	if len(args) > 4 && args[4] != "0+0" {
 		var a, b int
@@ -949,6 +1110,9 @@ func childMain(args []string) {
 		fm.SealForcedForTests()
 		fm.WaitIdle()
 		say("SEALED")
+		for _, x := range glued { // after the seal, still the same process
+			observe(x)
+		}
 	}
 	if args[3] != "-" {
 		var b, point int
@@ -1063,6 +1227,7 @@ func parkedOnWriterLock() bool {
 }
 
 type round struct {
+	glue   [2]int // two bulks sent by the real ingestor through the in-memory client while the index workers are parked
 	xb, xm int    // bulk xb sent under a dead context, mode xm (0 = none), see childCancelled
 	seal   bool   // after the ingestion of this round the active fraction is sealed (SealForcedForTests)
 	par    [2]int // two bulks appended concurrently (0 = none), see childConcurrent
@@ -1091,6 +1256,9 @@ func (s scenario) String() string {
 		if r.xm > 0 {
 			p += fmt.Sprintf(",x=%d:%d", r.xb, r.xm)
 		}
+		if r.glue[0] > 0 {
+			p += fmt.Sprintf(",g=%d+%d", r.glue[0], r.glue[1])
+		}
 		parts = append(parts, fmt.Sprintf("i=%s,c=%s%s", strings.ReplaceAll(vh.JoinInts(r.ingest), ",", "+"), c, p))
 	}
 	return "hist " + strings.Join(parts, " ")
@@ -1110,6 +1278,10 @@ func parseScenario(line string) (scenario, error) {
 				r.ingest = parseInts(strings.ReplaceAll(kv[2:], "+", ","))
 			case kv == "s":
 				r.seal = true
+			case strings.HasPrefix(kv, "g="):
+				if _, err := fmt.Sscanf(kv[2:], "%d+%d", &r.glue[0], &r.glue[1]); err != nil {
+					return s, err
+				}
 			case strings.HasPrefix(kv, "x="):
 				if _, err := fmt.Sscanf(kv[2:], "%d:%d", &r.xb, &r.xm); err != nil {
 					return s, err
@@ -1136,12 +1308,12 @@ type childResult struct {
 	stderr string
 }
 
-func runChild(dir string, verify, ingest []int, crash string, par [2]int, seal bool, x string) childResult {
+func runChild(dir string, verify, ingest []int, crash string, par [2]int, seal bool, x string, glue [2]int) childResult {
 	self, err := os.Executable()
 	must(err)
 	ctx, cancel := context.WithTimeout(context.Background(), 60*time.Second)
 	defer cancel()
-	cmd := exec.CommandContext(ctx, self, "child", dir, vh.JoinInts(verify), vh.JoinInts(ingest), crash, fmt.Sprintf("%d+%d", par[0], par[1]), map[bool]string{true: "seal", false: "-"}[seal], x)
+	cmd := exec.CommandContext(ctx, self, "child", dir, vh.JoinInts(verify), vh.JoinInts(ingest), crash, fmt.Sprintf("%d+%d", par[0], par[1]), map[bool]string{true: "seal", false: "-"}[seal], x, map[bool]string{true: fmt.Sprintf("%d+%d", glue[0], glue[1]), false: "-"}[glue[0] > 0])
 	var so, se bytes.Buffer
 	cmd.Stdout, cmd.Stderr = &so, &se
 	err = cmd.Run()
@@ -1202,6 +1374,7 @@ func runScenario(s scenario) (findings []finding, tagsOut []string, obs sysObs) 
 	debris := ""                // class of the earliest crash that left debris and was followed by ingestion
 	pendingDebris := ""
 	concurrent := false // two bulks were appended concurrently earlier in the history
+	special := ""       // the history contains single-mode rounds / hot bulks: names the class when nothing else does
 	overlap := false    // a bulk repeated documents of an earlier bulk before bringing new ones
 	check := func(res childResult, phase string) bool {
 		cls := debris
@@ -1213,6 +1386,9 @@ func runScenario(s scenario) (findings []finding, tagsOut []string, obs sysObs) 
 		}
 		if cls == "" && overlap {
 			cls = "overlapping-bulks"
+		}
+		if cls == "" {
+			cls = special
 		}
 		if cls == "" {
 			cls = "no-debris"
@@ -1277,7 +1453,7 @@ func runScenario(s scenario) (findings []finding, tagsOut []string, obs sysObs) 
 			debris = pendingDebris
 		}
 		for _, b := range r.ingest {
-			if b >= 1000 {
+			if b >= 1000 && b < 2000 {
 				overlap = true
 				tagsOut = append(tagsOut, "overlapping-bulk")
 			}
@@ -1294,7 +1470,17 @@ func runScenario(s scenario) (findings []finding, tagsOut []string, obs sysObs) 
 			x = fmt.Sprintf("%d:%d", r.xb, r.xm)
 			tagsOut = append(tagsOut, fmt.Sprintf("dead-context-%d", r.xm))
 		}
-		res := runChild(dir, known(), r.ingest, crash, r.par, r.seal, x)
+		if r.glue[0] > 0 {
+			special = "single-mode-glue"
+			tagsOut = append(tagsOut, "single-mode-glue")
+		}
+		for _, b := range r.ingest {
+			if b >= 3000 {
+				special = "hot-token"
+				tagsOut = append(tagsOut, "hot-bulk")
+			}
+		}
+		res := runChild(dir, known(), r.ingest, crash, r.par, r.seal, x, r.glue)
 		for _, l := range res.lines {
 			if strings.HasPrefix(l, "CONCURRENT") {
 				tagsOut = append(tagsOut, strings.ReplaceAll(l, " ", ":"))
@@ -1360,7 +1546,7 @@ func runScenario(s scenario) (findings []finding, tagsOut []string, obs sysObs) 
 			}
 		}
 	}
-	res := runChild(dir, known(), nil, "-", [2]int{}, false, "-")
+	res := runChild(dir, known(), nil, "-", [2]int{}, false, "-", [2]int{})
 	obs.up = check(res, "final restart")
 	obs.bulks = known()
 	for _, l := range res.lines {
@@ -1386,6 +1572,9 @@ func modelHistory(s scenario) string {
 	var evs []string
 	for _, r := range s.rounds {
 		for _, b := range r.ingest {
+			if b >= 2000 { // ingestor-built and hot bulks are left out of the model comparison (they only add blocks)
+				continue
+			}
 			d, m := bulkBlocks(b)
 			evs = append(evs, event{kind: 'B', d: d, m: m}.String())
 		}
@@ -1439,9 +1628,23 @@ func lastLine(s string) string {
 	return l
 }
 
+func hotRange(first, n int) []int {
+	r := make([]int, n)
+	for i := range r {
+		r[i] = first + i
+	}
+	return r
+}
+
 func siteOf(class string) string {
 	if strings.HasSuffix(class, "/concurrent-bulks") {
 		return "frac/active_writer.go:Write"
+	}
+	if strings.HasSuffix(class, "/single-mode-glue") {
+		return "storeapi/client.go:Bulk"
+	}
+	if strings.HasSuffix(class, "/hot-token") {
+		return "frac/active_lids.go:getQueuedLIDs"
 	}
 	if strings.HasSuffix(class, "/dead-context") {
 		return "storeapi/grpc_bulk.go:Bulk"
@@ -1484,6 +1687,11 @@ func oracleCrashRestart(o vh.Opts, rng *vh.RNG, rep *vh.Report, replayOps []stri
 			scenario{[]round{{ingest: []int{3, 4, 1004}, crash: 5, point: 5, k: 35}, {ingest: []int{1003}, crash: -1}}},
 			scenario{[]round{{ingest: []int{6, 1006}, crash: -1, seal: true}, {ingest: []int{7, 1007}, crash: -1}}},
 			scenario{[]round{{ingest: []int{2, 5}, crash: -1}, {ingest: []int{1002}, crash: -1, seal: true}, {ingest: []int{8}, crash: -1}}},
+			// single mode: the real ingestor + in-memory client with parked index workers; then seal / restart
+			scenario{[]round{{ingest: []int{1}, crash: -1, glue: [2]int{2001, 2002}, seal: true}, {ingest: []int{2}, crash: -1}}},
+			scenario{[]round{{crash: -1, glue: [2]int{2003, 2004}}, {ingest: []int{3}, crash: -1, glue: [2]int{2005, 2006}, seal: true}}},
+			// an active fraction with more than 10000 documents under one token, read while written, restarted twice
+			scenario{[]round{{ingest: hotRange(3001, 40), crash: -1}, {ingest: []int{4}, crash: -1}, {crash: -1}}},
 			// bulks sent under a cancelled / expired context, and under one that is cancelled between refused tries
 			scenario{[]round{{ingest: []int{1}, crash: -1, xb: 2, xm: 1}, {ingest: []int{3}, crash: -1}}},
 			scenario{[]round{{ingest: []int{4}, crash: -1, xb: 5, xm: 2}, {crash: -1, xb: 6, xm: 1}}},
@@ -1530,6 +1738,10 @@ func oracleCrashRestart(o vh.Opts, rng *vh.RNG, rep *vh.Report, replayOps []stri
 					rd.ingest = append(rd.ingest, 1000+rd.ingest[rng.Intn(len(rd.ingest))])
 				}
 				rd.seal = rng.Chance(1, 6)
+				if rng.Chance(1, 8) {
+					rd.glue = [2]int{2000 + next, 2001 + next}
+					next += 2
+				}
 				if rng.Chance(1, 6) {
 					rd.xb, rd.xm = next, rng.Range(1, 3)
 					next++
@@ -1578,6 +1790,9 @@ func oracleCrashRestart(o vh.Opts, rng *vh.RNG, rep *vh.Report, replayOps []stri
 		if ob := results[i].o; ob.reached && (fix || ob.up) && len(ob.bulks) > 0 {
 			var qs, states []string
 			for _, b := range ob.bulks {
+				if b >= 2000 {
+					continue
+				}
 				d, m := bulkBlocks(b)
 				qs = append(qs, vh.Hex(d)+":"+vh.Hex(m))
 				st := ob.state[b]
